@@ -151,5 +151,5 @@ func TestGff(t *testing.T) {
 	vlib.Run(t, vlib.Prop[iogen.GffFile]{Name: "gff-roundtrip", Checks: 4000, Thorough: 300000,
 		Gen:   func(t *rapid.T) iogen.GffFile { return iogen.GenGffFile(t, 8) },
 		Check: checkGff, Classes: gffClasses,
-		MinFrac: map[string]float64{"attrs>=2": 0.2, "attrs+comments": 0.1, "infinite-score": 0.02, "inline-seq-multiline": 0.1, "kind-region": 0.2, "start=0": 0.1, "negative-start": 0.05, "line>4096": 0.01}})
+		MinFrac: map[string]float64{"attrs>=2": 0.2, "attrs+comments": 0.1, "infinite-score": 0.012, "inline-seq-multiline": 0.07, "kind-region": 0.2, "start=0": 0.1, "negative-start": 0.05, "line>4096": 0.01}})
 }
